@@ -109,6 +109,49 @@ def project(l0: LT, l1: LT, l2: int, l3: int, n: int, b0: bool) -> bool:
     return ok(why(same_json(doc, before), "document modified"))
 
 
+def _pool(i: int) -> Any:
+    """Selected values / matches that are empty or nested-empty containers, or strings that look like JSON text."""
+    if i == 0:
+        return {}
+    if i == 1:
+        return []
+    if i == 2:
+        return "s"
+    if i == 3:
+        return "[1, 2]"
+    if i == 4:
+        return {"k": {}}
+    if i == 5:
+        return [[]]
+    if i == 6:
+        return '{"a": 7, "b": [8]}'
+    if i == 7:
+        return {"a": {}, "b": []}
+    return 0
+
+
+NPOOL = 9
+
+
+def project_pool(i0: int, i1: int, l2: int, l3: int, n: int, b0: bool) -> bool:
+    """As project(), the leaves drawn from a pool of empty containers, containers of empty containers and JSON-looking strings.
+
+    pre: 0 <= n <= MAXN
+    pre: 0 <= i0 < NPOOL and 0 <= i1 < NPOOL
+    post: _
+    """
+    doc = spines.build(SPINE, [_pool(i0), _pool(i1), 7, _pool(i1) if SPINE in ('nest2', 'nest3') else 8, _pool(i0), _pool(i1)], n, [True, True, True])
+    before = spines.build(SPINE, [_pool(i0), _pool(i1), 7, _pool(i1) if SPINE in ('nest2', 'nest3') else 8, _pool(i0), _pool(i1)], n, [True, True, True])
+    exp = _expected(doc)
+    got = list(ENV.query(MATCHQ, doc).select(*EXPRS, projection=STYLE))
+    if not why(len(got) == len(exp), "number of projections", MATCHQ, EXPRS, doc, got, exp):
+        return ok(False)
+    for g, e in zip(got, exp):
+        if not why(same_json(g, e), "projection", MATCHQ, EXPRS, doc, got, exp):
+            return ok(False)
+    return ok(why(same_json(doc, before), "document modified"))
+
+
 def unchanged(l0: LT, l1: LT, l2: int, l3: int, n: int, b0: bool) -> bool:
     """Overlapping selections (a container and something inside it): whatever the projection, the document is not modified.
 
@@ -123,7 +166,7 @@ def unchanged(l0: LT, l1: LT, l2: int, l3: int, n: int, b0: bool) -> bool:
 
 
 def ancestor_first(l0: LT, l1: LT, l2: int, l3: int, n: int, b0: bool) -> bool:
-    """EXPRS = [ancestor, something inside it]: the ancestor is selected whole, so the projection equals the projection of
+    """EXPRS = the ancestor at position P['anc'] (default first) and nodes inside it, before or after: the ancestor is selected whole, so the projection equals the projection of
     the ancestor alone (every selected node's value is found at its location), and the document is unchanged.
 
     pre: 0 <= n <= MAXN
@@ -133,7 +176,7 @@ def ancestor_first(l0: LT, l1: LT, l2: int, l3: int, n: int, b0: bool) -> bool:
     doc = spines.build(SPINE, [l0, l1, l2, l3, l0, l1], n, [b0, True, True])
     before = spines.build(SPINE, [l0, l1, l2, l3, l0, l1], n, [b0, True, True])
     both = list(ENV.query(MATCHQ, doc).select(*EXPRS, projection=STYLE))
-    alone = list(ENV.query(MATCHQ, doc).select(EXPRS[0], projection=STYLE))
+    alone = list(ENV.query(MATCHQ, doc).select(EXPRS[P.get('anc', 0)], projection=STYLE))
     if STYLE == Projection.FLAT:
         return ok(same_json(doc, before))
     return ok(why(same_json(both, alone), "a wholly selected container lost part of its value", EXPRS, both, alone) and same_json(doc, before))
